@@ -19,7 +19,7 @@ mutual
     | .var _ => true
     | .unop _ e => simpleExpr e
     | .binop _ l r => simpleExpr l && simpleExpr r
-    | .cmp _ _ => false
+    | .cmp e ops => decide (2 ≤ ops.length) && simpleExpr e && simpleChain ops
     | .ife c t none => simpleExpr c && simpleExpr t
     | .ife c t (some f) => simpleExpr c && simpleExpr t && simpleExpr f
     | .filter _ e args => simpleExpr e && simpleArgs args
@@ -29,6 +29,9 @@ mutual
     | .call _ _ => false
     | .list items => simpleList items
     | .map kvs => simplePairs kvs
+  def simpleChain : List (CmpOp × Expr) → Bool
+    | [] => true
+    | (_, e) :: rest => simpleExpr e && simpleChain rest
   def simpleArgs : List (Option String × Expr) → Bool
     | [] => true
     | (none, e) :: rest => simpleExpr e && simpleArgs rest
@@ -40,6 +43,12 @@ mutual
     | [] => true
     | (k, v) :: rest => simpleExpr k && simpleExpr v && simplePairs rest
 end
+
+/-- `emit_compare` -/
+def cmpInstrs : CmpOp → List Instr
+  | .eq => [.eq] | .ne => [.ne] | .lt => [.lt] | .le => [.lte]
+  | .gt => [.gt] | .ge => [.gte] | .isin => [.isIn]
+  | .notin => [.isIn, .not]
 
 mutual
   def relExpr : Expr → Nat → Aux → List Instr × Aux
@@ -65,7 +74,13 @@ mutual
           let rl := relExpr l base a
           let rr := relExpr r (base + rl.1.length) rl.2
           (rl.1 ++ rr.1 ++ [binInstr op], rr.2)
-        | .cmp _ _ => ([], a.markOof)
+        | .cmp x ops =>
+          -- operands; all but the last comparison jump to the clean-up code at `cs` when false
+          let rx := relExpr x base a
+          let len := (relChain ops (base + rx.1.length) rx.2 0).1.length
+          let cs := base + rx.1.length + len + 1
+          let rc := relChain ops (base + rx.1.length) rx.2 cs
+          (rx.1 ++ rc.1 ++ [.jump (cs + 2), .swap, .discardTop], rc.2)
         | .ife c t f =>
           let rc := relExpr c base a
           let rt := relExpr t (base + rc.1.length + 1) rc.2
@@ -90,6 +105,14 @@ mutual
         | .call _ _ => ([], a.markOof)
         | .list items => ((relList items base a).1 ++ [.buildList (some items.length)], (relList items base a).2)
         | .map kvs => ((relPairs kvs base a).1 ++ [.buildMap kvs.length], (relPairs kvs base a).2)
+  /-- the operator loop of `compile_compare` with the target `cs` of the clean-up jumps resolved -/
+  def relChain : List (CmpOp × Expr) → Nat → Aux → Nat → List Instr × Aux
+    | [], _, a, _ => ([], a)
+    | [(op, e)], base, a, _ => ((relExpr e base a).1 ++ cmpInstrs op, (relExpr e base a).2)
+    | (op, e) :: o2 :: rest, base, a, cs =>
+      let re := relExpr e base a
+      let rr := relChain (o2 :: rest) (base + re.1.length + 2) re.2 cs
+      (re.1 ++ [.compareAndPreserve op, .jumpIfFalseOrPop cs] ++ rr.1, rr.2)
   def relArgs : List (Option String × Expr) → Nat → Aux → List Instr × Aux
     | [], _, a => ([], a)
     | (none, e) :: rest, base, a =>
@@ -234,6 +257,118 @@ theorem if_block (g : CG) (Cc Ct Cf : List Instr × Aux) :
 
 theorem extend_nil_markOof (g : CG) : g.markOof = g.extend ([], g.aux.markOof) := CG.markOof_eq_extend g
 
+@[simp] theorem patch_next (g : CG) (i t : Nat) : (g.patch i t).next = g.next := by
+  unfold CG.patch; split <;> simp [CG.next]
+@[simp] theorem patch_aux (g : CG) (i t : Nat) : (g.patch i t).aux = g.aux := by
+  unfold CG.patch; split <;> rfl
+@[simp] theorem patch_pending (g : CG) (i t : Nat) : (g.patch i t).pending = g.pending := by
+  unfold CG.patch; split <;> rfl
+@[simp] theorem patchAll_next (is : List Nat) (t : Nat) : ∀ g : CG, (g.patchAll is t).next = g.next := by
+  induction is with
+  | nil => intro g; rfl
+  | cons i rest ih => intro g; simp [CG.patchAll] at ih ⊢; rw [ih]; simp
+@[simp] theorem patchAll_aux (is : List Nat) (t : Nat) : ∀ g : CG, (g.patchAll is t).aux = g.aux := by
+  induction is with
+  | nil => intro g; rfl
+  | cons i rest ih => intro g; simp [CG.patchAll] at ih ⊢; rw [ih]; simp
+
+/-- absolute positions of the `JumpIfFalseOrPop`s of a comparison chain -/
+def chainJumps : List (CmpOp × Expr) → Nat → Aux → List Nat
+  | [], _, _ => []
+  | [_], _, _ => []
+  | (_, e) :: o2 :: rest, base, a =>
+    (base + (relExpr e base a).1.length + 1) ::
+      chainJumps (o2 :: rest) (base + (relExpr e base a).1.length + 2) (relExpr e base a).2
+
+/-- the clean-up target only occurs as a jump operand: sizes and auxiliary state do not depend on it -/
+theorem relChain_cs : ∀ (ops : List (CmpOp × Expr)) (base : Nat) (a : Aux) (cs cs' : Nat),
+    (relChain ops base a cs).1.length = (relChain ops base a cs').1.length ∧
+    (relChain ops base a cs).2 = (relChain ops base a cs').2
+  | [], _, _, _, _ => by simp [relChain]
+  | [(op, e)], _, _, _, _ => by simp [relChain]
+  | (op, e) :: o2 :: rest, base, a, cs, cs' => by
+    have ih := relChain_cs (o2 :: rest) (base + (relExpr e base a).1.length + 2) (relExpr e base a).2 cs cs'
+    simp only [relChain, List.length_append, List.length_cons, List.length_nil]
+    exact ⟨by rw [ih.1], ih.2⟩
+
+theorem emitCompare_eq (g : CG) (op : CmpOp) : emitCompare g op = g.extend (cmpInstrs op, g.aux) := by
+  cases op <;> simp [emitCompare, cmpInstrs, CG.add, CG.extend]
+
+/-- patching all clean-up jumps of a chain resolves them to `cs` -/
+theorem patchAll_chain : ∀ (ops : List (CmpOp × Expr)) (base : Nat) (a : Aux) (cs : Nat) (pre post : List Instr)
+    (P : List Pending) (aux' : Aux), pre.length = base →
+    ({ code := pre ++ (relChain ops base a unpatched).1 ++ post, pending := P, aux := aux' } : CG).patchAll
+        (chainJumps ops base a) cs =
+      { code := pre ++ (relChain ops base a cs).1 ++ post, pending := P, aux := aux' }
+  | [], _, _, _, _, _, _, _, _ => by simp [chainJumps, relChain, CG.patchAll]
+  | [(op, e)], _, _, _, _, _, _, _, _ => by simp [chainJumps, relChain, CG.patchAll]
+  | (op, e) :: o2 :: rest, base, a, cs, pre, post, P, aux', hpre => by
+    simp only [chainJumps, relChain, CG.patchAll, List.foldl]
+    rw [patch_jifop _ (pre ++ (relExpr e base a).1 ++ [Instr.compareAndPreserve op])
+      ((relChain (o2 :: rest) (base + (relExpr e base a).1.length + 2) (relExpr e base a).2 unpatched).1 ++ post)
+      _ unpatched _ (by simp) (by simp [hpre]; omega)]
+    have ih := patchAll_chain (o2 :: rest) (base + (relExpr e base a).1.length + 2) (relExpr e base a).2 cs
+      (pre ++ (relExpr e base a).1 ++ [Instr.compareAndPreserve op, Instr.jumpIfFalseOrPop cs]) post P aux'
+      (by simp [hpre]; omega)
+    simp only [CG.patchAll] at ih
+    have e1 : pre ++ (relExpr e base a).1 ++ [Instr.compareAndPreserve op] ++
+        Instr.jumpIfFalseOrPop cs ::
+          ((relChain (o2 :: rest) (base + (relExpr e base a).1.length + 2) (relExpr e base a).2 unpatched).1 ++ post) =
+        pre ++ (relExpr e base a).1 ++ [Instr.compareAndPreserve op, Instr.jumpIfFalseOrPop cs] ++
+          (relChain (o2 :: rest) (base + (relExpr e base a).1.length + 2) (relExpr e base a).2 unpatched).1 ++ post := by
+      simp
+    rw [e1, ih]
+    simp
+
+/-- the tail of `compile_compare`: jump over the clean-up code, clean-up code, patching -/
+theorem cmp_block (g : CG) (Cx : List Instr × Aux) (ops : List (CmpOp × Expr)) (n : Nat)
+    (hn : n = g.next + Cx.1.length + (relChain ops (g.next + Cx.1.length) Cx.2 unpatched).1.length + 3) :
+    ((((((g.extend Cx).extend (relChain ops (g.next + Cx.1.length) Cx.2 unpatched)).add (Instr.jump unpatched)).add
+          Instr.swap).add Instr.discardTop).patchAll (chainJumps ops (g.next + Cx.1.length) Cx.2)
+        ((((g.extend Cx).extend (relChain ops (g.next + Cx.1.length) Cx.2 unpatched)).add (Instr.jump unpatched)).next)).patch
+      (g.next + Cx.1.length + (relChain ops (g.next + Cx.1.length) Cx.2 unpatched).1.length) n =
+    g.extend (Cx.1 ++ (relChain ops (g.next + Cx.1.length) Cx.2
+        (g.next + Cx.1.length + (relChain ops (g.next + Cx.1.length) Cx.2 0).1.length + 1)).1 ++
+      [Instr.jump (g.next + Cx.1.length + (relChain ops (g.next + Cx.1.length) Cx.2 0).1.length + 1 + 2),
+       Instr.swap, Instr.discardTop],
+      (relChain ops (g.next + Cx.1.length) Cx.2
+        (g.next + Cx.1.length + (relChain ops (g.next + Cx.1.length) Cx.2 0).1.length + 1)).2) := by
+  subst hn
+  have hl := relChain_cs ops (g.next + Cx.1.length) Cx.2 unpatched 0
+  have hl2 := relChain_cs ops (g.next + Cx.1.length) Cx.2
+    (g.next + Cx.1.length + (relChain ops (g.next + Cx.1.length) Cx.2 0).1.length + 1) 0
+  have hP := patchAll_chain ops (g.next + Cx.1.length) Cx.2
+    (g.next + Cx.1.length + (relChain ops (g.next + Cx.1.length) Cx.2 0).1.length + 1)
+    (g.code ++ Cx.1) [Instr.jump unpatched, Instr.swap, Instr.discardTop] g.pending
+    (relChain ops (g.next + Cx.1.length) Cx.2 unpatched).2 (by simp [CG.next])
+  have e0 : ((((g.extend Cx).extend (relChain ops (g.next + Cx.1.length) Cx.2 unpatched)).add (Instr.jump unpatched)).add
+          Instr.swap).add Instr.discardTop =
+      { code := g.code ++ Cx.1 ++ (relChain ops (g.next + Cx.1.length) Cx.2 unpatched).1 ++
+          [Instr.jump unpatched, Instr.swap, Instr.discardTop], pending := g.pending,
+        aux := (relChain ops (g.next + Cx.1.length) Cx.2 unpatched).2 } := by
+    simp [CG.extend, CG.add]
+  have e1 : (((g.extend Cx).extend (relChain ops (g.next + Cx.1.length) Cx.2 unpatched)).add (Instr.jump unpatched)).next =
+      g.next + Cx.1.length + (relChain ops (g.next + Cx.1.length) Cx.2 0).1.length + 1 := by
+    have hnext : g.next = g.code.length := rfl
+    simp only [CG.extend, CG.add, List.length_append, List.length_cons, List.length_nil]
+    show (g.code ++ Cx.1 ++ (relChain ops (g.next + Cx.1.length) Cx.2 unpatched).1 ++ [Instr.jump unpatched]).length = _
+    simp only [List.length_append, List.length_cons, List.length_nil]; omega
+  rw [e0, e1, hP]
+  rw [patch_jump _ (g.code ++ Cx.1 ++ (relChain ops (g.next + Cx.1.length) Cx.2
+      (g.next + Cx.1.length + (relChain ops (g.next + Cx.1.length) Cx.2 0).1.length + 1)).1)
+    [Instr.swap, Instr.discardTop] _ unpatched _ (by simp)
+    (by have hnext : g.next = g.code.length := rfl
+        simp only [List.length_append]; omega)]
+  have e2 := relChain_cs ops (g.next + Cx.1.length) Cx.2 unpatched
+    (g.next + Cx.1.length + (relChain ops (g.next + Cx.1.length) Cx.2 0).1.length + 1)
+  rw [hl.1, e2.2]
+  simp [CG.extend, Nat.add_assoc]
+
+theorem chainJumps_cons (op : CmpOp) (e : Expr) (o2 : CmpOp × Expr) (rest : List (CmpOp × Expr)) (b : Nat) (a : Aux) :
+    chainJumps ((op, e) :: o2 :: rest) b a =
+      (b + (relExpr e b a).1.length + 1) :: chainJumps (o2 :: rest) (b + (relExpr e b a).1.length + 2) (relExpr e b a).2 := by
+  simp [chainJumps]
+
 mutual
 theorem cExpr_eq_rel : ∀ (e : Expr) (g : CG), simpleExpr e = true →
     cExpr e g = g.extend (relExpr e g.next g.aux)
@@ -267,7 +402,26 @@ theorem cExpr_eq_rel : ∀ (e : Expr) (g : CG), simpleExpr e = true →
         simp only
         rw [cExpr_eq_rel l g hs.1, cExpr_eq_rel r _ hs.2]
         simp [CG.extend_extend, Nat.add_assoc]
-  | .cmp _ _, _, h => by simp [simpleExpr] at h
+  | .cmp x [], g, h => by simp [simpleExpr] at h
+  | .cmp x [_], g, h => by simp [simpleExpr] at h
+  | .cmp x (o1 :: o2 :: rest), g, h => by
+    have hs : simpleExpr x = true ∧ simpleChain (o1 :: o2 :: rest) = true := by
+      have := h; simp [simpleExpr] at this; exact ⟨this.1, this.2⟩
+    unfold cExpr
+    cases hc : asConst (.cmp x (o1 :: o2 :: rest)) with
+    | val v => unfold relExpr; simp [hc, CG.add_eq_extend]
+    | oof => unfold relExpr; simp [hc, CG.markOof_eq_extend]
+    | no =>
+      simp only
+      rw [cExpr_eq_rel x g hs.1, cChain_eq_rel (o1 :: o2 :: rest) [] _ hs.2]
+      obtain ⟨op1, e1⟩ := o1
+      -- the list of clean-up jumps is not empty
+      simp only [List.nil_append, CG.next_extend, CG.extend_aux, chainJumps_cons]
+      rw [← chainJumps_cons]
+      rw [cmp_block g (relExpr x g.next g.aux) ((op1, e1) :: o2 :: rest) _
+        (by rw [patchAll_next]; simp only [CG.extend, CG.add, CG.next, List.length_append, List.length_cons, List.length_nil])]
+      conv => rhs; unfold relExpr
+      simp [hc, Nat.add_assoc]
   | .ife c t none, g, h => by
     have hs : simpleExpr c = true ∧ simpleExpr t = true := by simpa [simpleExpr] using h
     unfold cExpr relExpr
@@ -331,6 +485,21 @@ theorem cExpr_eq_rel : ∀ (e : Expr) (g : CG), simpleExpr e = true →
     have ih := cPairs_eq_rel kvs g (by simpa [simpleExpr] using h)
     unfold cExpr relExpr
     cases hc : asConst (.map kvs) <;> simp [CG.add_eq_extend, CG.markOof_eq_extend, ih, CG.extend_extend]
+theorem cChain_eq_rel : ∀ (ops : List (CmpOp × Expr)) (jumps : List Nat) (g : CG), simpleChain ops = true →
+    cChain ops jumps g =
+      (g.extend (relChain ops g.next g.aux unpatched), jumps ++ chainJumps ops g.next g.aux)
+  | [], jumps, g, _ => by simp [cChain, relChain, chainJumps, CG.extend]
+  | [(op, e)], jumps, g, h => by
+    have hs : simpleExpr e = true := by simpa [simpleChain] using h
+    simp only [cChain, relChain, chainJumps, List.append_nil]
+    rw [cExpr_eq_rel e g hs, emitCompare_eq, CG.extend_extend]
+    simp
+  | (op, e) :: o2 :: rest, jumps, g, h => by
+    have hs : simpleExpr e = true ∧ simpleChain (o2 :: rest) = true := by simpa [simpleChain] using h
+    simp only [cChain, relChain, chainJumps]
+    rw [cExpr_eq_rel e g hs.1, CG.extend_add, CG.extend_add, CG.next_extend]
+    rw [cChain_eq_rel (o2 :: rest) _ _ hs.2]
+    simp [CG.extend_extend, Nat.add_assoc]
 theorem cArgs_eq_rel : ∀ (args : List (Option String × Expr)) (g : CG), simpleArgs args = true →
     cArgs args g = g.extend (relArgs args g.next g.aux)
   | [], g, _ => by simp [cArgs, relArgs, CG.extend]
